@@ -27,12 +27,32 @@ static valprobe_result_u32_u8_t seen_res, ret_res;
 static uint8_t seen_perms, ret_perms, seen_color, ret_color;
 static uint8_t seen_shape_tag, ret_shape_tag; static uint64_t seen_shape_num, ret_shape_num;
 static size_t seen_len, ret_len; static uint8_t seen_b[2], ret_b[2];
+/* string code units: bytes for utf8, 16-bit units with --string-encoding utf16 (lengths count code units, buffers are CUSZ * length bytes aligned to CUSZ) */
+#ifdef UTF16
+typedef uint16_t cu_t;
+#define CUSZ 2
+unsigned short nondet_ushort(void);
+#define nondet_cu() nondet_ushort()
+#else
+typedef uint8_t cu_t;
+#define CUSZ 1
+#define nondet_cu() nondet_uchar()
+#endif
+static cu_t seen_u[2], ret_u[2];
 static uint32_t seen_w[2], ret_w[2];
 static valprobe_tuple3_u8_u32_u8_t seen_t[2], ret_t[2];
 static size_t seen_inner_len, ret_inner_len;
 
 void exports_valprobe_echo_pt(valprobe_pt_t *a, valprobe_pt_t *ret) { calls++; seen_pt = *a; *ret = ret_pt; }
 void exports_valprobe_echo_tuple(valprobe_tuple2_u8_u64_t *a, valprobe_tuple2_u8_u64_t *ret) { calls++; seen_tuple = *a; *ret = ret_tuple; }
+/* --no-sig-flattening (-DNOFLAT): options and results are passed and returned as their C structs instead of a nullable pointer / a bool plus out-pointers */
+#ifdef NOFLAT
+void exports_valprobe_echo_opt(valprobe_option_u32_t *a, valprobe_option_u32_t *ret) {
+  calls++; seen_opt_some = a->is_some; if (a->is_some) seen_opt = a->val;
+  ret->is_some = ret_opt_some; if (ret_opt_some) ret->val = ret_opt;
+}
+void exports_valprobe_echo_res(valprobe_result_u32_u8_t *a, valprobe_result_u32_u8_t *ret) { calls++; seen_res = *a; *ret = ret_res; }
+#else
 bool exports_valprobe_echo_opt(uint32_t *maybe_a, uint32_t *ret) {
   calls++; seen_opt_some = maybe_a != NULL; if (maybe_a) seen_opt = *maybe_a;
   if (ret_opt_some) *ret = ret_opt;
@@ -43,18 +63,21 @@ bool exports_valprobe_echo_res(valprobe_result_u32_u8_t *a, uint32_t *ret, uint8
   if (ret_res.is_err) { *err = ret_res.val.err; return false; }
   *ret = ret_res.val.ok; return true;
 }
+#endif
 valprobe_perms_t exports_valprobe_echo_perms(valprobe_perms_t a) { calls++; seen_perms = a; return ret_perms; }
 valprobe_color_t exports_valprobe_echo_color(valprobe_color_t a) { calls++; seen_color = a; return ret_color; }
 
 static void fill_bytes(uint8_t *p, size_t n, const uint8_t *src) { if (n >= 1) p[0] = src[0]; if (n >= 2) p[1] = src[1]; }
 static void take_bytes(const uint8_t *p, size_t n) { seen_len = n; if (n >= 1) seen_b[0] = p[0]; if (n >= 2) seen_b[1] = p[1]; }
+static void fill_units(cu_t *p, size_t n, const cu_t *src) { if (n >= 1) p[0] = src[0]; if (n >= 2) p[1] = src[1]; }
+static void take_units(const cu_t *p, size_t n) { seen_len = n; if (n >= 1) seen_u[0] = p[0]; if (n >= 2) seen_u[1] = p[1]; }
 static void give_string(valprobe_string_t *ret) {
   ret->len = ret_len;
-  ret->ptr = ret_len ? (uint8_t *) malloc(ret_len) : (uint8_t *) 1;
-  if (ret_len) { __CPROVER_assume(ret->ptr != NULL); fill_bytes(ret->ptr, ret_len, ret_b); }
+  ret->ptr = ret_len ? (cu_t *) malloc(CUSZ * ret_len) : (cu_t *) CUSZ;
+  if (ret_len) { __CPROVER_assume(ret->ptr != NULL); fill_units(ret->ptr, ret_len, ret_u); }
 }
 void exports_valprobe_echo_str(valprobe_string_t *a, valprobe_string_t *ret) {
-  calls++; take_bytes(a->ptr, a->len);
+  calls++; take_units(a->ptr, a->len);
   valprobe_string_free(a);            /* the callee owns its argument */
   give_string(ret);
 }
@@ -80,7 +103,7 @@ void exports_valprobe_echo_shape(valprobe_shape_t *a, valprobe_shape_t *ret) {
   calls++; seen_shape_tag = a->tag;
   if (a->tag == 1) seen_shape_num = a->val.circle;
   if (a->tag == 2) seen_shape_num = a->val.wide;
-  if (a->tag == 3) { take_bytes(a->val.label.ptr, a->val.label.len); }
+  if (a->tag == 3) { take_units(a->val.label.ptr, a->val.label.len); }
   valprobe_shape_free(a);
   ret->tag = ret_shape_tag;
   if (ret_shape_tag == 1) ret->val.circle = (uint32_t) ret_shape_num;
@@ -89,21 +112,21 @@ void exports_valprobe_echo_shape(valprobe_shape_t *a, valprobe_shape_t *ret) {
 }
 void exports_valprobe_echo_strs(valprobe_list_string_t *a, valprobe_list_string_t *ret) {
   calls++; seen_len = a->len;
-  if (a->len >= 1) { seen_inner_len = a->ptr[0].len; if (seen_inner_len >= 1) seen_b[0] = a->ptr[0].ptr[0]; }
+  if (a->len >= 1) { seen_inner_len = a->ptr[0].len; if (seen_inner_len >= 1) seen_u[0] = a->ptr[0].ptr[0]; }
   valprobe_list_string_free(a);
   ret->len = ret_len;
   ret->ptr = ret_len ? (valprobe_string_t *) malloc(2 * P * ret_len) : (valprobe_string_t *) 4;
   if (ret_len) {
     __CPROVER_assume(ret->ptr != NULL);
     ret->ptr[0].len = ret_inner_len;
-    ret->ptr[0].ptr = ret_inner_len ? (uint8_t *) malloc(ret_inner_len) : (uint8_t *) 1;
-    if (ret_inner_len) { __CPROVER_assume(ret->ptr[0].ptr != NULL); ret->ptr[0].ptr[0] = ret_b[0]; }
+    ret->ptr[0].ptr = ret_inner_len ? (cu_t *) malloc(CUSZ * ret_inner_len) : (cu_t *) CUSZ;
+    if (ret_inner_len) { __CPROVER_assume(ret->ptr[0].ptr != NULL); ret->ptr[0].ptr[0] = ret_u[0]; }
   }
 }
 
 static valprobe_person_t seen_person, ret_person; static uint8_t seen_tags[2], ret_tags[2]; static size_t ret_tags_len;
 void exports_valprobe_echo_person(valprobe_person_t *a, valprobe_person_t *ret) {
-  calls++; seen_person = *a; take_bytes(a->name.ptr, a->name.len);
+  calls++; seen_person = *a; take_units(a->name.ptr, a->name.len);
   if (a->tags.len >= 1) seen_tags[0] = a->tags.ptr[0]; if (a->tags.len >= 2) seen_tags[1] = a->tags.ptr[1];
   valprobe_person_free(a);            /* the callee owns its argument: the generated helper frees both buffers */
   ret->id = ret_person.id; ret->age = ret_person.age;
@@ -112,13 +135,46 @@ void exports_valprobe_echo_person(valprobe_person_t *a, valprobe_person_t *ret) 
   if (ret_tags_len) { __CPROVER_assume(ret->tags.ptr != NULL); fill_bytes(ret->tags.ptr, ret_tags_len, ret_tags); }
 }
 static _Bool seen_rstr_err, ret_rstr_err; static uint32_t seen_rstr_code, ret_rstr_code;
+/* results with only one payload: result<u32> and result<_, u8> */
+static _Bool seen_r1_err, ret_r1_err; static uint32_t seen_r1, ret_r1;
+#ifdef NOFLAT
+void exports_valprobe_echo_rok(valprobe_result_u32_void_t *a, valprobe_result_u32_void_t *ret) {
+  calls++; seen_r1_err = a->is_err; if (!a->is_err) seen_r1 = a->val.ok;
+  ret->is_err = ret_r1_err; if (!ret_r1_err) ret->val.ok = ret_r1;
+}
+void exports_valprobe_echo_rerr(valprobe_result_void_u8_t *a, valprobe_result_void_u8_t *ret) {
+  calls++; seen_r1_err = a->is_err; if (a->is_err) seen_r1 = a->val.err;
+  ret->is_err = ret_r1_err; if (ret_r1_err) ret->val.err = (uint8_t) ret_r1;
+}
+#else
+bool exports_valprobe_echo_rok(valprobe_result_u32_void_t *a, uint32_t *ret) {
+  calls++; seen_r1_err = a->is_err; if (!a->is_err) seen_r1 = a->val.ok;
+  if (ret_r1_err) return false;
+  *ret = ret_r1; return true;
+}
+bool exports_valprobe_echo_rerr(valprobe_result_void_u8_t *a, uint8_t *err) {
+  calls++; seen_r1_err = a->is_err; if (a->is_err) seen_r1 = a->val.err;
+  if (ret_r1_err) { *err = (uint8_t) ret_r1; return false; }
+  return true;
+}
+#endif
+#ifdef NOFLAT
+void exports_valprobe_echo_rstr(valprobe_result_string_u32_t *a, valprobe_result_string_u32_t *ret) {
+  calls++; seen_rstr_err = a->is_err;
+  if (a->is_err) seen_rstr_code = a->val.err; else take_units(a->val.ok.ptr, a->val.ok.len);
+  valprobe_result_string_u32_free(a);
+  ret->is_err = ret_rstr_err;
+  if (ret_rstr_err) ret->val.err = ret_rstr_code; else give_string(&ret->val.ok);
+}
+#else
 bool exports_valprobe_echo_rstr(valprobe_result_string_u32_t *a, valprobe_string_t *ret, uint32_t *err) {
   calls++; seen_rstr_err = a->is_err;
-  if (a->is_err) seen_rstr_code = a->val.err; else take_bytes(a->val.ok.ptr, a->val.ok.len);
+  if (a->is_err) seen_rstr_code = a->val.err; else take_units(a->val.ok.ptr, a->val.ok.len);
   valprobe_result_string_u32_free(a);
   if (ret_rstr_err) { *err = ret_rstr_code; return false; }
   give_string(ret); return true;
 }
+#endif
 
 static valprobe_fvar_t seen_fvar, ret_fvar;
 void exports_valprobe_echo_fvar(valprobe_fvar_t *a, valprobe_fvar_t *ret) { calls++; seen_fvar = *a; *ret = ret_fvar; }
@@ -197,6 +253,18 @@ void c10_result(void) {
   ASSERT(RD(uint8_t, ret, 0) == (ret_res.is_err ? 1 : 0), "C10: the returned discriminant");
   ASSERT(ret_res.is_err ? RD(uint8_t, ret, 4) == (uint8_t) rv : RD(uint32_t, ret, 4) == rv, "C10: the returned payload at offset 4");
 }
+void c10_result_one_payload(void) {
+  stale_ret_area();
+  _Bool err = nondet_bool(); uint32_t v = nondet_uint(); ret_r1_err = nondet_bool(); ret_r1 = nondet_uint();
+  _Bool only_ok = nondet_bool();   /* result<u32> or result<_, u8> */
+  uint8_t *ret = only_ok ? __wasm_export_exports_valprobe_echo_rok(err ? 1 : 0, err ? 0 : (int32_t) v)
+                         : __wasm_export_exports_valprobe_echo_rerr(err ? 1 : 0, err ? (int32_t) (uint8_t) v : 0);
+  ASSERT(calls == 1 && seen_r1_err == err, "C10: the result's case arrives unchanged");
+  ASSERT(only_ok ? (err || seen_r1 == v) : (!err || seen_r1 == (uint8_t) v), "C10: the result's only payload arrives unchanged");
+  ASSERT(RD(uint8_t, ret, 0) == (ret_r1_err ? 1 : 0), "C10: the returned case is the discriminant");
+  if (only_ok) ASSERT(ret_r1_err || RD(uint32_t, ret, 4) == ret_r1, "C10: ok(u32) of a result without an error type is stored at the payload offset");
+  else ASSERT(!ret_r1_err || RD(uint8_t, ret, 1) == (uint8_t) ret_r1, "C10: err(u8) of a result without an ok type is stored at the payload offset");
+}
 void c10_flags_enum(void) {
   stale_ret_area();
   uint8_t f = nondet_uchar(), rf = nondet_uchar(), c = nondet_uchar(), rc = nondet_uchar();
@@ -246,12 +314,12 @@ static void any_lengths(size_t *n, size_t *m) {
 void c10_c11_string(void) {
   stale_ret_area();
   size_t n, m; any_lengths(&n, &m);
-  uint8_t in[2] = { nondet_uchar(), nondet_uchar() }; ret_b[0] = nondet_uchar(); ret_b[1] = nondet_uchar(); ret_len = m;
-  uint8_t *p = host_alloc(n, 1); if (n) fill_bytes(p, n, in);
+  cu_t in[2] = { nondet_cu(), nondet_cu() }; ret_u[0] = nondet_cu(); ret_u[1] = nondet_cu(); ret_len = m;
+  uint8_t *p = host_alloc(CUSZ * n, CUSZ); if (n) fill_units((cu_t *) p, n, in);
   uint8_t *ret = __wasm_export_exports_valprobe_echo_str(p, n);
-  ASSERT(calls == 1 && seen_len == n && (n < 1 || seen_b[0] == in[0]) && (n < 2 || seen_b[1] == in[1]), "C10: the string the host sent arrives unchanged");
-  uint8_t *rp = RD(uint8_t *, ret, 0); size_t rl = RD(size_t, ret, P);
-  ASSERT(rl == m && (m < 1 || rp[0] == ret_b[0]) && (m < 2 || rp[1] == ret_b[1]), "C10: the string the guest returned reaches the host unchanged");
+  ASSERT(calls == 1 && seen_len == n && (n < 1 || seen_u[0] == in[0]) && (n < 2 || seen_u[1] == in[1]), "C10: the string the host sent arrives unchanged");
+  cu_t *rp = RD(cu_t *, ret, 0); size_t rl = RD(size_t, ret, P);
+  ASSERT(rl == m && (m < 1 || rp[0] == ret_u[0]) && (m < 2 || rp[1] == ret_u[1]), "C10: the string the guest returned reaches the host unchanged");
   __wasm_export_exports_valprobe_echo_str_post_return(ret);   /* C11: with CBMC's leak / double-free / bounds checks */
 }
 void c10_c11_list_u32(void) {
@@ -285,14 +353,14 @@ void c10_c11_list_of_tuples(void) {
 void c10_c11_variant_string(void) {
   stale_ret_area();
   size_t n, m; any_lengths(&n, &m);
-  uint8_t in[2] = { nondet_uchar(), nondet_uchar() }; ret_b[0] = nondet_uchar(); ret_b[1] = nondet_uchar(); ret_len = m;
+  cu_t in[2] = { nondet_cu(), nondet_cu() }; ret_u[0] = nondet_cu(); ret_u[1] = nondet_cu(); ret_len = m;
   _Bool ret_label = nondet_bool(); ret_shape_tag = ret_label ? 3 : 1; ret_shape_num = 9;
-  uint8_t *p = host_alloc(n, 1); if (n) fill_bytes(p, n, in);
+  uint8_t *p = host_alloc(CUSZ * n, CUSZ); if (n) fill_units((cu_t *) p, n, in);
   uint8_t *ret = __wasm_export_exports_valprobe_echo_shape(3, (int64_t) (uint32_t) p, n);   /* a pointer in the joined slot */
-  ASSERT(calls == 1 && seen_shape_tag == 3 && seen_len == n && (n < 1 || seen_b[0] == in[0]) && (n < 2 || seen_b[1] == in[1]), "C10: the label the host sent arrives unchanged");
+  ASSERT(calls == 1 && seen_shape_tag == 3 && seen_len == n && (n < 1 || seen_u[0] == in[0]) && (n < 2 || seen_u[1] == in[1]), "C10: the label the host sent arrives unchanged");
   if (ret_label) {
-    uint8_t *rp = RD(uint8_t *, ret, 8); size_t rl = RD(size_t, ret, 8 + P);
-    ASSERT(RD(uint8_t, ret, 0) == 3 && rl == m && (m < 1 || rp[0] == ret_b[0]) && (m < 2 || rp[1] == ret_b[1]), "C10: the label the guest returned reaches the host unchanged");
+    cu_t *rp = RD(cu_t *, ret, 8); size_t rl = RD(size_t, ret, 8 + P);
+    ASSERT(RD(uint8_t, ret, 0) == 3 && rl == m && (m < 1 || rp[0] == ret_u[0]) && (m < 2 || rp[1] == ret_u[1]), "C10: the label the guest returned reaches the host unchanged");
   } else {
     ASSERT(RD(uint8_t, ret, 0) == 1 && RD(uint32_t, ret, 8) == 9, "C10: the numeric case is stored");
   }
@@ -302,31 +370,31 @@ void c10_c11_list_of_strings(void) {
   stale_ret_area();
   size_t n = nondet_uint(), m = nondet_uint(); __CPROVER_assume(n <= 1 && m <= 1);
   size_t inl = nondet_uint(); __CPROVER_assume(inl <= 1); ret_inner_len = nondet_uint(); __CPROVER_assume(ret_inner_len <= 1);
-  uint8_t inb = nondet_uchar(); ret_b[0] = nondet_uchar(); ret_len = m;
+  cu_t inb = nondet_cu(); ret_u[0] = nondet_cu(); ret_len = m;
   uint8_t *list = host_alloc(2 * P * n, P);
-  if (n) { uint8_t *e = host_alloc(inl, 1); if (inl) e[0] = inb; RD(uint8_t *, list, 0) = e; RD(size_t, list, P) = inl; }
+  if (n) { uint8_t *e = host_alloc(CUSZ * inl, CUSZ); if (inl) ((cu_t *) e)[0] = inb; RD(uint8_t *, list, 0) = e; RD(size_t, list, P) = inl; }
   uint8_t *ret = __wasm_export_exports_valprobe_echo_strs(list, n);
-  ASSERT(calls == 1 && seen_len == n && (n < 1 || (seen_inner_len == inl && (inl < 1 || seen_b[0] == inb))), "C10: the list of strings the host sent arrives unchanged");
+  ASSERT(calls == 1 && seen_len == n && (n < 1 || (seen_inner_len == inl && (inl < 1 || seen_u[0] == inb))), "C10: the list of strings the host sent arrives unchanged");
   uint8_t *rp = RD(uint8_t *, ret, 0); size_t rl = RD(size_t, ret, P);
   ASSERT(rl == m, "C10: returned length");
-  if (m) { uint8_t *ep = RD(uint8_t *, rp, 0); size_t el = RD(size_t, rp, P); ASSERT(el == ret_inner_len && (el < 1 || ep[0] == ret_b[0]), "C10: the returned element reaches the host unchanged"); }
+  if (m) { cu_t *ep = RD(cu_t *, rp, 0); size_t el = RD(size_t, rp, P); ASSERT(el == ret_inner_len && (el < 1 || ep[0] == ret_u[0]), "C10: the returned element reaches the host unchanged"); }
   __wasm_export_exports_valprobe_echo_strs_post_return(ret);
 }
 void c10_c11_record_with_heap_fields(void) {
   stale_ret_area();
   size_t n = nondet_uint(), t = nondet_uint(), m = nondet_uint(), u = nondet_uint(); __CPROVER_assume(n <= 2 && t <= 2 && m <= 2 && u <= 2);
   uint16_t id = nondet_uint(); uint8_t age = nondet_uchar(); ret_person.id = nondet_uint(); ret_person.age = nondet_uchar();
-  uint8_t nameb[2] = { nondet_uchar(), nondet_uchar() }, tagb[2] = { nondet_uchar(), nondet_uchar() };
-  ret_b[0] = nondet_uchar(); ret_b[1] = nondet_uchar(); ret_len = m; ret_tags[0] = nondet_uchar(); ret_tags[1] = nondet_uchar(); ret_tags_len = u;
-  uint8_t *pn = host_alloc(n, 1); if (n) fill_bytes(pn, n, nameb);
+  cu_t nameb[2] = { nondet_cu(), nondet_cu() }; uint8_t tagb[2] = { nondet_uchar(), nondet_uchar() };
+  ret_u[0] = nondet_cu(); ret_u[1] = nondet_cu(); ret_len = m; ret_tags[0] = nondet_uchar(); ret_tags[1] = nondet_uchar(); ret_tags_len = u;
+  uint8_t *pn = host_alloc(CUSZ * n, CUSZ); if (n) fill_units((cu_t *) pn, n, nameb);
   uint8_t *pt = host_alloc(t, 1); if (t) fill_bytes(pt, t, tagb);
   uint8_t *ret = __wasm_export_exports_valprobe_echo_person((int32_t) id, pn, n, pt, t, (int32_t) age);
   ASSERT(calls == 1 && seen_person.id == id && seen_person.age == age, "C10: the record's scalar fields arrive unchanged");
-  ASSERT(seen_len == n && (n < 1 || seen_b[0] == nameb[0]) && (n < 2 || seen_b[1] == nameb[1]), "C10: the record's string field arrives unchanged");
+  ASSERT(seen_len == n && (n < 1 || seen_u[0] == nameb[0]) && (n < 2 || seen_u[1] == nameb[1]), "C10: the record's string field arrives unchanged");
   ASSERT(seen_person.tags.len == t && (t < 1 || seen_tags[0] == tagb[0]) && (t < 2 || seen_tags[1] == tagb[1]), "C10: the record's list field arrives unchanged");
   ASSERT(RD(uint16_t, ret, 0) == ret_person.id && RD(uint8_t, ret, 5 * P) == ret_person.age, "C10: the returned scalar fields at their canonical offsets (u16 @0, u8 @5P)");
-  uint8_t *np = RD(uint8_t *, ret, P); size_t nl = RD(size_t, ret, 2 * P);
-  ASSERT(nl == m && (m < 1 || np[0] == ret_b[0]) && (m < 2 || np[1] == ret_b[1]), "C10: the returned string field reaches the host unchanged");
+  cu_t *np = RD(cu_t *, ret, P); size_t nl = RD(size_t, ret, 2 * P);
+  ASSERT(nl == m && (m < 1 || np[0] == ret_u[0]) && (m < 2 || np[1] == ret_u[1]), "C10: the returned string field reaches the host unchanged");
   uint8_t *tp = RD(uint8_t *, ret, 3 * P); size_t tl = RD(size_t, ret, 4 * P);
   ASSERT(tl == u && (u < 1 || tp[0] == ret_tags[0]) && (u < 2 || tp[1] == ret_tags[1]), "C10: the returned list field reaches the host unchanged");
   __wasm_export_exports_valprobe_echo_person_post_return(ret);
@@ -335,33 +403,38 @@ void c10_c11_result_with_string(void) {
   stale_ret_area();
   size_t n, m; any_lengths(&n, &m);
   _Bool in_err = nondet_bool(); ret_rstr_err = nondet_bool(); uint32_t e = nondet_uint(); ret_rstr_code = nondet_uint();
-  uint8_t in[2] = { nondet_uchar(), nondet_uchar() }; ret_b[0] = nondet_uchar(); ret_b[1] = nondet_uchar(); ret_len = m;
+  cu_t in[2] = { nondet_cu(), nondet_cu() }; ret_u[0] = nondet_cu(); ret_u[1] = nondet_cu(); ret_len = m;
   uint8_t *ret;
   if (in_err) {
     ret = __wasm_export_exports_valprobe_echo_rstr(1, (uint8_t *) e, 0);   /* the i32 error code travels in the slot it shares with the pointer */
   } else {
-    uint8_t *p = host_alloc(n, 1); if (n) fill_bytes(p, n, in);
+    uint8_t *p = host_alloc(CUSZ * n, CUSZ); if (n) fill_units((cu_t *) p, n, in);
     ret = __wasm_export_exports_valprobe_echo_rstr(0, p, n);
   }
   ASSERT(calls == 1 && seen_rstr_err == in_err, "C10: the result's case arrives unchanged");
-  ASSERT(in_err ? seen_rstr_code == e : (seen_len == n && (n < 1 || seen_b[0] == in[0]) && (n < 2 || seen_b[1] == in[1])), "C10: the result's payload arrives unchanged");
+  ASSERT(in_err ? seen_rstr_code == e : (seen_len == n && (n < 1 || seen_u[0] == in[0]) && (n < 2 || seen_u[1] == in[1])), "C10: the result's payload arrives unchanged");
   if (ret_rstr_err) {
     ASSERT(RD(uint8_t, ret, 0) == 1 && RD(uint32_t, ret, P) == ret_rstr_code, "C10: err(u32) is stored at the payload offset");
   } else {
-    uint8_t *rp = RD(uint8_t *, ret, P); size_t rl = RD(size_t, ret, 2 * P);
-    ASSERT(RD(uint8_t, ret, 0) == 0 && rl == m && (m < 1 || rp[0] == ret_b[0]) && (m < 2 || rp[1] == ret_b[1]), "C10: ok(string) reaches the host unchanged");
+    cu_t *rp = RD(cu_t *, ret, P); size_t rl = RD(size_t, ret, 2 * P);
+    ASSERT(RD(uint8_t, ret, 0) == 0 && rl == m && (m < 1 || rp[0] == ret_u[0]) && (m < 2 || rp[1] == ret_u[1]), "C10: ok(string) reaches the host unchanged");
   }
   __wasm_export_exports_valprobe_echo_rstr_post_return(ret);
 }
 /* import arguments are borrowed: passed, left untouched, still owned (and freed) by the caller */
 void c11_import_arguments_untouched(void) {
   stale_ret_area();
-  _Bool some = nondet_bool(); uint8_t b = nondet_uchar();
-  valprobe_string_t s; s.len = 1; s.ptr = (uint8_t *) malloc(1); __CPROVER_assume(s.ptr != NULL); s.ptr[0] = b;
+  _Bool some = nondet_bool(); cu_t b = nondet_cu();
+  valprobe_string_t s; s.len = 1; s.ptr = (cu_t *) malloc(CUSZ); __CPROVER_assume(s.ptr != NULL); s.ptr[0] = b;
   valprobe_list_string_t l; l.ptr = &s; l.len = 1;
+#ifdef NOFLAT
+  valprobe_option_list_string_t o; o.is_some = some; if (some) o.val = l;
+  uint32_t r = verif_val_sinks_nested_list(&o);
+#else
   uint32_t r = verif_val_sinks_nested_list(some ? &l : NULL);
+#endif
   ASSERT(sink_calls == 1 && r == (some ? 1u : 0u) && sink_disc == (some ? 1 : 0), "C11: exactly one core call");
-  if (some) ASSERT(sink_len == 1 && sink_elem_ptr == s.ptr && sink_elem_len == 1, "C11: the callee sees the caller's own buffers (no copy)");
+  if (some) ASSERT(sink_len == 1 && sink_elem_ptr == (uint8_t *) s.ptr && sink_elem_len == 1, "C11: the callee sees the caller's own buffers (no copy)");
   ASSERT(l.len == 1 && l.ptr == &s && s.len == 1 && s.ptr[0] == b, "C11: import arguments are left untouched");
   free(s.ptr);   /* still the caller's to free: a second free by the bindings would be a double free */
 }
